@@ -159,6 +159,24 @@ def run(ctx):
             if db3 is None or dbside.dump(db3) != dbside.dump(db):
                 res.oracle_failures.append(("re-importing the printed features does not give an equivalent database",
                                             dict(inp, reimport=rep3)))
+        # ... and re-importing the features themselves (FeatureDB / one-shot generator input; more than checklines
+        # features go through the dialect peek of the feature iterator)
+        if in_domain and fi % 2 == 0:
+            for form in ("FeatureDB", "generator"):
+                src = db if form == "FeatureDB" else db.all_features()
+                try:
+                    import warnings
+                    with warnings.catch_warnings():
+                        warnings.simplefilter("ignore")
+                        db4 = gffutils.create_db(src, ":memory:", checklines=cl, merge_strategy="create_unique", keep_order=True,
+                                                 disable_infer_genes=True, disable_infer_transcripts=True)
+                    p4 = [str(f) for f in db4.all_features()]
+                except Exception as ex:
+                    p4 = "raised %r" % ex
+                res.evaluations += 1
+                if p4 != printed:
+                    res.oracle_failures.append(("re-importing the features (as %s) does not give an equivalent database" % form,
+                                                dict(inp, got=p4 if isinstance(p4, str) else len(p4), expected=len(printed))))
         if len(res.samples) < 2:
             res.sample(inp)
     # repository data files: correspondence of the whole import (no byte-identity claim: mixed dialects) --------------
